@@ -26,18 +26,34 @@ def hashioHandler : Handler
       let (chunks, ts) ← readCounted readBytes ts
       let (tbl, _) ← readCounted readTriple ts
       let H := tableDigest tbl
-      pure (match Hashio.run names chunks with
+      -- the specification, stated directly (C12_passthrough / C12_sums are the theorems that
+      -- the model equals it): the stream passes through, every hasher reports the stream's
+      -- length and its true digest
+      let all := chunks.flatten
+      let spec := if names.all Hashio.supported then
+          "ok " ++ fingerprint all ++ " " ++ String.intercalate " "
+            (names.map (fun n => s!"{out n}:{all.length}:{out (H n all)}:{out (Hashio.hexEncode (H n all))}"))
+        else "err"
+      pure ((match Hashio.run names chunks with
         | .error _ => "err"
         | .ok p => "ok " ++ fingerprint p.target ++ " " ++ String.intercalate " "
             (p.hashers.map (fun h => s!"{out h.name}:{h.size}:{out (h.sum H)}:{out (Hashio.fileHashFromHasher H [120] h).hash}")))
+        ++ " ; spec=" ++ spec)
   -- verifier <alg> <hash text> <data> <digest table>
   | "verifier", alg :: hash :: data :: ts => do
       let alg ← hx alg
       let hash ← hx hash
       let data ← hx data
       let (tbl, _) ← readCounted readTriple ts
-      pure (match Hashio.verify (tableDigest tbl) alg hash data with
-        | .accept => "accept" | .reject => "reject" | .unsupported => "unsupported" | .badHex => "badhex")
+      let H := tableDigest tbl
+      -- specification: accepted iff the recorded text is the hex form of the stream's digest
+      -- under the entry's own algorithm (either letter case)
+      let lower := hash.map (fun c => if 65 ≤ c ∧ c ≤ 70 then c + 32 else c)
+      let spec := if !Hashio.supported alg then "unsupported"
+        else if lower = Hashio.hexEncode (H alg data) then "accept"
+        else if (Hashio.hexDecode hash).isSome then "reject" else "badhex"
+      pure ((match Hashio.verify H alg hash data with
+        | .accept => "accept" | .reject => "reject" | .unsupported => "unsupported" | .badHex => "badhex") ++ " ; spec=" ++ spec)
   | _, _ => none
 
 end GoDebian.Drv
